@@ -371,6 +371,7 @@ class Interp:
         self.inline_ok = set()
         self.extra_axioms = sym.EXTRA
         self.protect = {}                 # id(obj) -> label : user data objects (frame obligations)
+        self.quiet = 0                    # > 0 while a lazily represented comprehension element is re-evaluated
 
     # ---------------------------------------------------------------- bookkeeping
     def assume(self, f):
@@ -388,7 +389,7 @@ class Interp:
         """Record an obligation generated during execution (index safety, callee precondition,
         frame).  It has to hold under the path condition at this point."""
         cb = concrete_bool(f)
-        if cb is True:
+        if cb is True or self.quiet:
             return
         # the obligation is checked under the complete path condition of the path it lies on (engine), so only
         # the local guards (if-converted branches, loop domains) are part of the formula itself
@@ -563,6 +564,9 @@ class Interp:
         except (AttributeError, TypeError, KeyError, IndexError, ValueError, z3.Z3Exception, RecursionError) as e:
             # a construct the model does not cover surfaced as a Python error inside the generator: treated like
             # any other unmodelled statement (havoc = sound over-approximation), and listed in the evidence
+            if os.environ.get('PYVC_DEBUG_INTERNAL'):
+                import traceback
+                traceback.print_exc()
             self.havoc_stmt(st, frame, f'internal {type(e).__name__}: {str(e)[:80]}')
 
     MUTATING_METHODS = {'append', 'extend', 'insert', 'pop', 'remove', 'clear', 'update', 'setdefault', 'sort', 'reverse', 'fill', 'resize',
@@ -2276,11 +2280,27 @@ class Interp:
         snapshot = dict(env)
 
         def mk(getitem, n):
-            def f(i):
+            def f_eval(i):
                 fr = dict(frame)
                 fr['env'] = dict(snapshot)
                 self.assign(gen.target, getitem(i), fr)
                 return self.ev(e.elt, fr)
+            # Python evaluates the comprehension eagerly: the safety obligations of the element expression (index
+            # bounds, keys) are due once, for every position of the range -- not whenever the lazily represented
+            # array is read later (possibly from a postcondition, at an arbitrary term)
+            probe = z3.Int(fresh_name('lc'))
+            self.guards.append(z3.And(probe >= 0, probe < lift(n)))
+            try:
+                f_eval(probe)
+            finally:
+                self.guards.pop()
+
+            def f(i):
+                self.quiet += 1
+                try:
+                    return f_eval(i)
+                finally:
+                    self.quiet -= 1
             return Arr(n, f, kind='list')
         if isinstance(it, SymRange):
             return mk(lambda i: binop('Add', it.lo, i), _sz(binop('Sub', it.hi, it.lo)))
